@@ -173,7 +173,7 @@ def cfg_case(draw):
         cfg[p['name']] = {'$order': [k for k, _ in items], **dict(items)}
     # injected errors
     for _ in range(draw(st.sampled_from([0, 0, 0, 1, 1, 2, 3]))):
-        kind = draw(st.sampled_from(['unknown-name', 'unknown-prop', 'bad-prop', 'no-description', 'inverted']))
+        kind = draw(st.sampled_from(['unknown-name', 'unknown-prop', 'bad-prop', 'no-description', 'inverted', 'writable-without-method']))
         p = draw(st.sampled_from(cs['params']))
         ent = cfg.get(p['name'])
         if kind == 'unknown-name':
@@ -194,11 +194,20 @@ def cfg_case(draw):
             ent[prop] = val
             cfg[p['name']] = ent
             errors.append({'kind': kind, 'needle': p['name']})
+        elif kind == 'writable-without-method' and p.get('readonly') and not p.get('write'):
+            # readonly=False configured for a parameter the class declares read-only and has no write method for
+            ent = ent or {'$order': []}
+            if 'readonly' not in ent:
+                ent['$order'] = ent['$order'] + ['readonly']
+            ent['readonly'] = False
+            cfg[p['name']] = ent
+            errors.append({'kind': kind, 'needle': p['name']})
         elif kind == 'no-description':
             if 'description' in cfg:
                 del cfg['description']
                 errors.append({'kind': kind, 'needle': 'description'})
-        elif kind == 'inverted' and p['T']['k'] in ('double', 'int'):
+        elif kind == 'inverted' and (p['T']['k'] in ('double', 'int') or p['T']['k'] == 'array' and p['T']['of']['k'] in ('double', 'int')):
+            # (datatype properties given for an array parameter are passed on to the member type)
             ent = ent or {'$order': []}
             for k in ('min', 'max'):
                 if k not in ent:
@@ -275,6 +284,8 @@ def derive_errors(cs, cfg):
                 errors.append({'kind': 'needscfg', 'needle': p['name']})
             continue
         known = PARAM_PROPS | DT_PROPS.get(p['T']['k'], set())
+        if p['T']['k'] == 'array':
+            known = known | DT_PROPS.get(p['T']['of']['k'], set())
         for k, v in ent.items():
             if k == '$order':
                 continue
@@ -286,6 +297,8 @@ def derive_errors(cs, cfg):
             errors.append({'kind': 'bad-prop', 'needle': p['name']})
         if 'group' in ent and not isinstance(ent['group'], str):
             errors.append({'kind': 'bad-prop', 'needle': p['name']})
+        if ent.get('readonly', True) in (False, 0) and p.get('readonly') and not p.get('write') and not p.get('constant'):
+            errors.append({'kind': 'writable-without-method', 'needle': p['name']})
         if rm.isnum(ent.get('min')) and rm.isnum(ent.get('max')) and ent['min'] > ent['max']:
             errors.append({'kind': 'inverted', 'needle': p['name']})
         if p.get('needscfg') and 'value' not in ent:
@@ -303,7 +316,7 @@ def analyse(case):
         if not isinstance(ent, dict):
             continue
         props = {k: v for k, v in ent.items() if k not in ('$order', 'value', 'default')}
-        if any(e['kind'] in ('inverted', 'unknown-prop', 'bad-prop') and e['needle'] in (p['name'], 'zzprop') for e in errors):
+        if any(e['kind'] in ('inverted', 'unknown-prop', 'bad-prop', 'writable-without-method') and e['needle'] in (p['name'], 'zzprop') for e in errors):
             T2 = p['T']
         else:
             try:
@@ -337,7 +350,8 @@ def check_cfg(ctx, case):
         ctx.nt((json.dumps(cs, sort_keys=True, default=repr), json.dumps(cfg, sort_keys=True, default=repr)))
     ctx.label(f'errors:{len(errors)}', f'expect:{"fail" if must_fail else "either" if may_fail else "ok"}')
     for e in errors:
-        ctx.label(f'inject:{e["kind"]}' + (':optional-not-implemented' if e['needle'] in cs.get('optional', ()) else ''))
+        ctx.label(f'inject:{e["kind"]}' + (':optional-not-implemented' if e['needle'] in cs.get('optional', ()) else '')
+                  + (':array-member' if e['kind'] == 'inverted' and any(p['name'] == e['needle'] and p['T']['k'] == 'array' for p in cs['params']) else ''))
     for i in plan.values():
         if i.get('as_default'):
             ctx.label(f'start-value-as-default:{i["vclass"]}')
